@@ -246,5 +246,64 @@ pub fn all() -> Vec<Template> {
         "fn pick(c: bool) -> char { if c { 'é' } else { '\\u{10FFFF}' } }\nfn f(a: i32, b: i32) -> i32 { if pick(a < b) == 'é' { 1 } else if pick(a < b) == '\\u{10FFFF}' { 2 } else { 3 } }\n",
         |a, b| Some(if a < b { 1 } else { 2 }),
     ));
+    // ---- arguments passed on the stack (System V: beyond 6 integer and 8 float
+    // registers): arity 8..16 with distinct weights per position, all-integer,
+    // all-float and interleaved; and selection of the k-th of 12 parameters
+    let wts = [3i64, 5, 7, 11, 13, 17, 19, 23, 29, 31, 37, 41, 43, 47, 53, 59];
+    for n in [8usize, 9, 12, 16] {
+        for (kind, ty) in [("i64", "i64"), ("i32", "i32"), ("u8", "u8"), ("f64", "f64"), ("f32", "f32")] {
+            let float = ty.starts_with('f');
+            let params: Vec<String> = (0..n).map(|i| format!("x{i}: {ty}")).collect();
+            // arguments: small values derived from position so that u8 does not overflow in the sum
+            let lit = |i: usize| if float { format!("{}.0", i % 5 + 1) } else { format!("{}", i % 5 + 1) };
+            let args: Vec<String> = (0..n).map(lit).collect();
+            // the callee compares every parameter with its own expected literal: a swapped,
+            // truncated or stale stack slot makes exactly that comparison fail
+            let checks: String = (0..n).map(|i| format!("if x{i} != {} {{ bad = bad + {}; }} ", lit(i), wts[i] % 7 + 1)).collect();
+            let src = format!(
+                "fn k({}) -> i32 {{ let bad = 0; {checks}bad }}
+fn f(a: i32, b: i32) -> i32 {{ k({}) + a - b }}
+",
+                params.join(", "),
+                args.join(", ")
+            );
+            v.push(t(format!("stack-args-{kind}-{n}"), src, |a, b| Some(a.wrapping_sub(b))));
+        }
+        // interleaved types, values at the boundaries of each width
+        let tys = ["u8", "f64", "i16", "bool", "u32", "f32", "i64", "i8", "u16", "u64", "i32"];
+        let vals = ["255", "2.5", "0 - 32768", "true", "4000000000", "0.25", "0 - 9000000000", "0 - 128", "65535", "9000000000000000000", "0 - 2147483647"];
+        let params: Vec<String> = (0..n).map(|i| format!("x{i}: {}", tys[i % tys.len()])).collect();
+        let args: Vec<&str> = (0..n).map(|i| vals[i % vals.len()]).collect();
+        let checks: String = (0..n).map(|i| format!("if x{i} != {} {{ bad = bad + 1; }} ", vals[i % vals.len()])).collect();
+        let src = format!(
+            "fn k({}) -> i32 {{ let bad = 0; {checks}bad }}
+fn f(a: i32, b: i32) -> i32 {{ k({}) * 1000 + a }}
+",
+            params.join(", "),
+            args.join(", ")
+        );
+        v.push(t(format!("stack-args-mixed-{n}"), src, |a, _| Some(a)));
+    }
+    // the k-th of 12 i64 parameters, arguments computed from a and b (not constants)
+    {
+        let params: Vec<String> = (0..12).map(|i| format!("x{i}: i64")).collect();
+        let sel: String = (0..11).map(|i| format!("if k == {i} {{ x{i} }} else ")).collect::<String>() + "{ x11 }";
+        let src = format!(
+            "fn pick(k: i32, {}) -> i64 {{ {sel} }}
+             fn w(x: i32) -> i64 {{ if x < 0 {{ 0 - 1 }} else if x == 0 {{ 0 }} else {{ 1 }} }}
+             fn f(a: i32, b: i32) -> i32 {{ let p = w(a); let q = w(b); let k = (p + 1) * 3 + q + 1;              let r = pick(if k == 0 {{ 0 }} else if k == 1 {{ 3 }} else if k == 2 {{ 5 }} else if k == 3 {{ 6 }} else if k == 4 {{ 7 }} else if k == 5 {{ 8 }} else if k == 6 {{ 9 }} else if k == 7 {{ 10 }} else {{ 11 }},              p, q, p + q, p - q, p * 2, q * 2, p + 10, q + 10, p + 20, q + 20, p + 30, q + 30);              if r == 0 - 1 {{ 0 - 1 }} else if r > 100 {{ 100 }} else if r == 0 {{ 0 }} else if r == 1 {{ 1 }} else if r == 2 {{ 2 }} else if r < 15 {{ 10 }} else if r < 25 {{ 20 }} else {{ 30 }} }}
+",
+            params.join(", ")
+        );
+        v.push(t("stack-args-select", src, |a, b| {
+            let w = |x: i32| -> i64 { if x < 0 { -1 } else if x == 0 { 0 } else { 1 } };
+            let (p, q) = (w(a), w(b));
+            let k = (p + 1) * 3 + q + 1;
+            let idx = [0usize, 3, 5, 6, 7, 8, 9, 10, 11][k as usize];
+            let xs = [p, q, p + q, p - q, p * 2, q * 2, p + 10, q + 10, p + 20, q + 20, p + 30, q + 30];
+            let r = xs[idx];
+            Some(if r == -1 { -1 } else if r > 100 { 100 } else if r == 0 { 0 } else if r == 1 { 1 } else if r == 2 { 2 } else if r < 15 { 10 } else if r < 25 { 20 } else { 30 })
+        }));
+    }
     v
 }
